@@ -60,7 +60,32 @@ STAGE_OF_FIXTURE = {'mapping': 'mapping', 'mapping.csvOnly': 'mapping',
                     'selection.behemoth': 'selection',
                     'selection.multiRef': 'selection',
                     'transpose': 'transpose'}
-SUCCESS_LINE = 'RAN SUCCESSFULLY'
+
+
+def norm_line(line):
+    """a log line without time stamps / durations / other numbers"""
+    return re.sub(r'[\d.:\-e+]+', '#', line).strip()
+
+
+def learn_success_lines(st):
+    """the "success message" of a mapping run is learnt from a run that
+    succeeded (the lines of its log that speak of success), not taken from the
+    wording in the source: C14 only says that a failed run writes none"""
+    obs = st.observe()
+    lines = (obs['log_text'] or '').splitlines() + list(
+        obs['log_in_json'] or [])
+    st.success_lines = set(norm_line(l) for l in lines
+                           if 'success' in l.lower())
+    return st.success_lines
+
+
+def has_success_line(st, lines):
+    learnt = getattr(st, 'success_lines', None)
+    if learnt is None:
+        # nothing learnt (should not happen): any line that claims success
+        return any(re.search(r'(?<!un)success', l, re.I)
+                   and not re.search(r'\bnot?\b', l, re.I) for l in lines)
+    return any(norm_line(l) in learnt for l in lines)
 
 
 class FakeProcess(object):
@@ -73,6 +98,15 @@ class FakeProcess(object):
 # (i) winnow
 # ---------------------------------------------------------------------------
 
+def parse_exit_code(msg):
+    """the exit code an error message mentions, if it can be found (the
+    number that follows the word "code"); None otherwise.  Only ever used to
+    cross-check, never required: the property says the call raises, not with
+    which words."""
+    m = re.search(r'code[^\w-]{0,3}(-?\d+)', msg or '', re.I)
+    return int(m.group(1)) if m else None
+
+
 def impl_winnow_list(codes):
     from cell_type_mapper.utils.multiprocessing_utils import (
         winnow_process_list)
@@ -80,11 +114,8 @@ def impl_winnow_list(codes):
     try:
         out = winnow_process_list(ps)
         return {'ok': [p.name for p in out]}
-    except RuntimeError as e:
-        m = re.search(r'exited with code (-?\d+)', str(e))
-        return {'err': int(m.group(1)) if m else None}
     except Exception as e:
-        return {'crash': repr(e)}
+        return {'raised': type(e).__name__, 'code': parse_exit_code(str(e))}
 
 
 def impl_winnow_dict(items):
@@ -94,11 +125,25 @@ def impl_winnow_dict(items):
     try:
         out = winnow_process_dict(d)
         return {'ok': list(out.keys())}
-    except RuntimeError as e:
-        m = re.search(r'key=(-?\d+)\) exited with code (-?\d+)', str(e))
-        return {'err': [int(m.group(1)), int(m.group(2))] if m else None}
     except Exception as e:
-        return {'crash': repr(e)}
+        m = re.search(r'key[^\w-]{0,2}(-?\d+)', str(e), re.I)
+        return {'raised': type(e).__name__, 'code': parse_exit_code(str(e)),
+                'key': int(m.group(1)) if m else None}
+
+
+def winnow_agrees(impl, model, with_key=False):
+    """model vs implementation: same survivors, or both raise; exit code (and
+    key) compared only where the message lets them be read"""
+    if 'ok' in impl or 'ok' in model:
+        return impl.get('ok') == model.get('ok') and 'ok' in impl \
+            and 'ok' in model
+    mcode = model['err'][1] if with_key else model['err']
+    if impl.get('code') is not None and impl['code'] != mcode:
+        return False
+    if with_key and impl.get('key') is not None \
+            and impl['key'] != model['err'][0]:
+        return False
+    return True
 
 
 def check_winnow_list(ctx, codes):
@@ -108,12 +153,14 @@ def check_winnow_list(ctx, codes):
              else None,
              sample={'kind': 'winnow_list', 'codes': codes, 'impl': impl})
     ctx.count('winnow_list:' + ('raise' if finished_bad else 'ok'))
-    # predicate on the implementation alone
+    # predicate on the implementation alone: a finished process with a
+    # non-zero exit code => the call raises (whatever the wording); otherwise
+    # exactly the running processes survive
     bad = None
     if finished_bad:
-        if 'err' not in impl or impl['err'] not in finished_bad:
+        if 'raised' not in impl:
             bad = 'a finished process has a non-zero exit code but ' \
-                  'winnow_process_list answered %r' % (impl,)
+                  'winnow_process_list returned %r' % (impl,)
     else:
         want = [i for i, c in enumerate(codes) if c is None]
         if impl != {'ok': want}:
@@ -127,7 +174,7 @@ def check_winnow_list(ctx, codes):
         return
     if ctx.driver_ok:
         model = ctx.model('procs.winnowList', {'codes': codes})
-        if model != impl:
+        if not winnow_agrees(impl, model):
             ctx.disagreements_checked += 1
             ctx.violation(
                 'C14/correspondence/winnow_list',
@@ -148,10 +195,9 @@ def check_winnow_dict(ctx, items):
     ctx.count('winnow_dict:' + ('raise' if finished_bad else 'ok'))
     bad = None
     if finished_bad:
-        if 'err' not in impl or impl['err'] is None or \
-                tuple(impl['err']) not in finished_bad:
+        if 'raised' not in impl:
             bad = 'a finished process has a non-zero exit code but ' \
-                  'winnow_process_dict answered %r' % (impl,)
+                  'winnow_process_dict returned %r' % (impl,)
     else:
         want = [k for k, c in items if c is None]
         if impl != {'ok': want}:
@@ -165,7 +211,7 @@ def check_winnow_dict(ctx, items):
         return
     if ctx.driver_ok:
         model = ctx.model('procs.winnowDict', {'items': items})
-        if model != impl:
+        if not winnow_agrees(impl, model, with_key=True):
             ctx.disagreements_checked += 1
             ctx.violation(
                 'C14/correspondence/winnow_dict',
@@ -253,7 +299,7 @@ def mapping_failure_problems(obs, st=None):
                 probs.append('JSON output has results')
             if 'log' not in obs['json_keys']:
                 probs.append('JSON output has no log')
-            if any(SUCCESS_LINE in l for l in (obs['log_in_json'] or [])):
+            if has_success_line(st, obs['log_in_json'] or []):
                 probs.append('success line in the JSON log')
     elif want_json:
         probs.append('no JSON output written')
@@ -261,7 +307,7 @@ def mapping_failure_problems(obs, st=None):
         probs.append('CSV written')
     if not obs['log_exists']:
         probs.append('log file not written')
-    elif SUCCESS_LINE in obs['log_text']:
+    elif has_success_line(st, obs['log_text'].splitlines()):
         probs.append('success line in the log file')
     if obs['h5_exists']:
         if obs['h5_datasets'] != ['metadata']:
@@ -285,7 +331,7 @@ def is_cleanup_race(err):
     head = (err or '').split(' <- ')[0]
     return head.split(':')[0] in ('OSError', 'FileNotFoundError',
                                   'PermissionError') \
-        and 'exited with code' in (err or '')
+        and ' <- ' in (err or '')
 
 
 def check_cleanup_race(ctx, prob_seed, n_leaves, n_proc, st=None):
@@ -300,11 +346,14 @@ def check_cleanup_race(ctx, prob_seed, n_leaves, n_proc, st=None):
             prob = make_problem(prob_seed, n_leaves)
             with pipeline.quiet():
                 st = stagefix.Mapping(prob, d)
+            run_stage(st, n_proc, faults.count_workers(st))
+            learn_success_lines(st)
             return check_cleanup_race(ctx, prob_seed, n_leaves, n_proc, st)
     clear(st)
     hook = ('cell_type_mapper.type_assignment.election', 'save_results')
     err, timed_out, rec = run_stage(
-        st, n_proc, faults.orphan_writes_during_cleanup(st, 0, 1, hook))
+        st, n_proc, faults.orphan_writes_during_cleanup(st, 0, 1, hook,
+                                                        root=st.tmp))
     forced = bool(rec.forced_state.get('forced')) and rec.orphan_wrote
     detail.update(error=err, forced=forced, fired=rec.fired)
     ctx.count('cleanup_race:' + ('forced' if forced else 'not-forced'))
@@ -344,6 +393,9 @@ def check_fault(ctx, fixture, prob_seed, n_leaves, n_proc, worker, point,
             prob = make_problem(prob_seed, n_leaves)
             with pipeline.quiet():
                 st = stagefix.STAGES[fixture](prob, d)
+            if fixture.startswith('mapping'):
+                run_stage(st, n_proc, faults.count_workers(st))
+                learn_success_lines(st)
             return check_fault(ctx, fixture, prob_seed, n_leaves, n_proc,
                                worker, point, mode, st=st,
                                n_workers=n_workers, stage_info=stage_info)
@@ -412,8 +464,8 @@ def check_fault(ctx, fixture, prob_seed, n_leaves, n_proc, worker, point,
             return
     # model prediction
     if ctx.driver_ok and stage_info is not None:
-        m = re.search(r'exited with code (-?\d+)', err)
-        impl_code = int(m.group(1)) if m else None
+        # the exit code in the message: cross-checked if it can be read
+        impl_code = parse_exit_code(err)
         want_code = faults.EXPECTED_EXIT[mode]
         nw = max(rec.started, worker + 1)
         exit_codes = [0] * nw
@@ -425,7 +477,8 @@ def check_fault(ctx, fixture, prob_seed, n_leaves, n_proc, worker, point,
         disagree = None
         if out['outcome'] != 'failed' or out.get('code') != want_code:
             disagree = 'model outcome %r' % (out,)
-        elif not fixture.endswith('.transpose') and impl_code != want_code:
+        elif not fixture.endswith('.transpose') and impl_code is not None \
+                and impl_code != want_code:
             disagree = 'implementation reported exit code %r, expected %r' \
                 % (impl_code, want_code)
         elif fixture.startswith('mapping'):
@@ -503,6 +556,9 @@ def run_faults(ctx):
                         'fixture %s does not run cleanly without faults '
                         '(seed %d): %s' % (fixture, prob_seed, err))
                 n_workers = rec.started
+                if fixture.startswith('mapping'):
+                    if not learn_success_lines(st):
+                        ctx.count('mapping:no-success-line-in-a-good-run')
                 ctx.count('workers:%s:%d' % (fixture, n_workers))
                 ctx.case(None)
                 if ctx.tier == 'quick' and fixture not in (
